@@ -474,6 +474,17 @@ def check_render(e, info, mode, case_class):
             fails.append(("snippet|frame-snippet-numbering", "snippet under %r: numbers %r, marked %r (%s)" % (h.group(0).strip()[-60:], nums, marked, case_class)))
             break
 
+    # ---- the symbols of every numbered line (final snippet and frames of a debug trace) are those of the output: an
+    #      output without UTF-8 support gets the ASCII marker and delimiter
+    if info["lines"] is not None:
+        want = ("\u2192 ", "\u2502") if mode["utf8"] else ("> ", "|")
+        for ln in lines:
+            m = SNIPPET_LINE.match(ln)
+            if m and ((m.group("mark") or want[0]) != want[0] or m.group("delim") != want[1]):
+                fails.append(("snippet|symbols-of-the-other-kind-of-output|%s" % ("utf8" if mode["utf8"] else "ascii"),
+                              "output with supports_utf8=%s shows the numbered line %r" % (mode["utf8"], ln.strip()[:60])))
+                break
+
     # ---- ignore pattern
     if mode.get("ignore") and mode.get("ignored_marker"):
         shown = mode["ignored_marker"] in out
